@@ -153,3 +153,13 @@ func (db *DB) VerifFlushCount(table string) int {
 	}
 	return t.rowStore.flushCount
 }
+
+// VerifForceFlush forces a flush of the named table and waits for it, without
+// holding the tables lock (DB.FlushAll holds it, which deadlocks with
+// table.shouldSort when MaxMemoryRatio > 0).
+func (db *DB) VerifForceFlush(table string) {
+	t := db.getTable(table)
+	if t != nil {
+		t.forceFlush()
+	}
+}
